@@ -162,6 +162,15 @@ fn cases(rng: &mut Rng, thorough: bool) -> Vec<Case> {
             text: format!("sgtz {sa}, {sb}"),
             expect: Expect::Sem(vec![Ins::Alu { op: AluOp::Slt, rd: a, rs1: ZERO, rs2: b }]),
         });
+        // (RARS: "sgez t1,t2  Set Greater than or Equal to Zero" = slt t1, t2, x0 ; xori t1, t1, 1.
+        // There is no such thing as `sgez rs, label`)
+        v.push(Case {
+            mn: "sgez",
+            form: "rd,rs",
+            text: format!("sgez {sa}, {sb}"),
+            expect: Expect::Sem(vec![Ins::Alu { op: AluOp::Slt, rd: a, rs1: b, rs2: ZERO }, Ins::AluI { op: AluOp::Xor, rd: a, rs1: a, imm: 1 }]),
+        });
+        v.push(Case { mn: "sgez", form: "rs,label", text: format!("sgez {sa}, target"), expect: Expect::Reject });
         // li / lui / la
         let big = rng.interesting_i32();
         v.push(Case { mn: "li", form: "rd,imm", text: format!("li {sa}, {big}"), expect: Expect::Sem(vec![Ins::li(a, big)]) });
